@@ -894,6 +894,15 @@ func (g *GoFakeS3) deleteMulti(bucket string, w http.ResponseWriter, r *http.Req
 		return ErrorMessage(ErrMalformedXML, err.Error())
 	}
 
+	// The version 'null' is the one an object has that was stored without
+	// versioning; as for the versionId subresource (see versionFromQuery),
+	// backends do not get to see the string.
+	for i := range in.Objects {
+		if in.Objects[i].VersionID == "null" {
+			in.Objects[i].VersionID = ""
+		}
+	}
+
 	var err error
 	var out MultiDeleteResult
 	if g.versioned == nil {
